@@ -574,11 +574,13 @@ pub enum E {
     Struct { foo: bool, bar: u32 },
     StructOpt { x: Option<f64>, items: Vec<char> },
     EmptyStruct {},
+    /// serde keeps tuple style (serialize_tuple_variant, len 1) when a field is skipped
+    Skip1(#[serde(skip)] u8, u32),
 }
 impl Fam for E {
     fn gen(rng: &mut Rng, g: G) -> Self {
         let d = g.deeper();
-        let k = if g.depth >= 4 { rng.below(6) } else { rng.below(13) };
+        let k = if g.depth >= 4 { rng.below(6) } else { rng.below(14) };
         match k {
             0 => E::Unit,
             1 => E::Newtype(u32::gen(rng, d)),
@@ -592,6 +594,7 @@ impl Fam for E {
             9 => E::NewTuple(<(u8, bool)>::gen(rng, d)),
             10 => E::Struct { foo: rng.bool(), bar: u32::gen(rng, d) },
             11 => E::StructOpt { x: Option::<f64>::gen(rng, d), items: Vec::<char>::gen(rng, d) },
+            12 => E::Skip1(0, u32::gen(rng, d)),
             _ => E::EmptyStruct {},
         }
     }
@@ -610,6 +613,7 @@ impl Fam for E {
             E::Struct { foo, bar } => Shape::StructVariant("struct", vec![("foo", foo.shape()), ("bar", bar.shape())]),
             E::StructOpt { x, items } => Shape::StructVariant("struct-opt", vec![("x", x.shape()), ("items", items.shape())]),
             E::EmptyStruct {} => Shape::StructVariant("empty-struct", vec![]),
+            E::Skip1(_, b) => Shape::TupleVariant("skip1", vec![b.shape()]),
         }
     }
     fn same(&self, o: &Self, t: bool) -> bool {
@@ -624,6 +628,7 @@ impl Fam for E {
             (E::OneTuple(a, b), E::OneTuple(c, d)) => a == c && b == d,
             (E::Struct { foo: a, bar: b }, E::Struct { foo: c, bar: d }) => a == c && b == d,
             (E::StructOpt { x: a, items: b }, E::StructOpt { x: c, items: d }) => a.same(c, t) && b == d,
+            (E::Skip1(_, a), E::Skip1(_, b)) => a == b,
             _ => false,
         }
     }
